@@ -70,4 +70,21 @@ theorem imports_token_one_line (hg : Good inp) (l : L) (h : SNil inp l) (ho : l.
         · rw [acceptUntil_out, ho1] at h'; cases h'
         · rw [h']; exact acceptUntil_no_lf hg _ _ h1 h10
 
+/-- **single imports**: the import token `lexImportStart` delivers is free of line feeds -/
+theorem importStart_token_one_line (hg : Good inp) (l : L) (h : SInv inp l) (ho : l.out = [])
+    (h10 : (10 : Nat) ∈ Gen.lexImportStart_acceptUntil1) :
+    ∀ t ∈ (lexImportStart l).1.out, t.typ = .import → countNl t.lit = 0 := by
+  unfold lexImportStart
+  simp only []
+  split
+  · intro t ht; simp [ho] at ht
+  · have h1 := snil_peek hg.wf _ (snil_ignore _ (tinv_skipRun _ Gen.lexImportStart_skipRun0 (tinv_acceptUntil _ Gen.lexImportStart_acceptUntil0 h.1)))
+    split
+    · intro t ht; simp [ho] at ht
+    · intro t ht _
+      rw [skipRun_out] at ht
+      rcases emit_lit _ _ t ht with h' | h'
+      · simp [ho] at h'
+      · rw [h']; exact acceptUntil_no_lf hg _ _ h1 h10
+
 end GL
